@@ -635,6 +635,74 @@ pub fn argument_values() -> Vec<Expect> {
     out
 }
 
+/// Fibers keep their state from one program to the next on the same interpreter.  A first program creates
+/// fibers held in globals, steps them, and ends - normally, by an uncaught error at top level, by an uncaught
+/// error inside a fiber, inside a fiber called by a fiber, or it does not compile at all; a second and a third
+/// program ask every fiber whether it has finished and call it again: a finished fiber stays finished and
+/// refuses calls, a suspended one goes on where it was, whatever ended the programs in between.
+fn fibers_across_programs() -> Vec<crate::expect::Expect> {
+    use crate::expect::Expect;
+    let defs = "var steps = Fiber.new(|| { Fiber.yield(1); Fiber.yield(2); Fiber.yield(3); return 4; });\nvar other = Fiber.new(|| { var k = 0; while true { k += 1; Fiber.yield(\"other ${k}\"); } });\nvar bomb = Fiber.new(|| { Fiber.yield(\"armed\"); throw \"boom\"; });\nvar inner = Fiber.new(|| { Fiber.yield(\"inner armed\"); throw \"inner boom\"; });\nvar outer = Fiber.new(|| { Fiber.yield(\"outer armed\"); inner.call(); return \"outer done\"; });\nprint(steps.call());\nprint(other.call());\nprint(bomb.call());\nprint(inner.call());\nprint(outer.call());\n";
+    let first_out = vec!["1", "other 1", "armed", "inner armed", "outer armed"];
+    // (how the first program ends, its last statement, which fibers are finished afterwards: bomb, inner, outer)
+    let endings: [(&str, &str, &str, bool, bool, bool); 5] = [
+        ("normally", "", "ok", false, false, false),
+        ("uncaught error at top level", "throw \"top\";\n", "Unhandled exception: top", false, false, false),
+        ("uncaught error inside a fiber", "bomb.call();\n", "Unhandled exception: boom", true, false, false),
+        ("uncaught error inside a fiber called by a fiber", "outer.call();\n", "Unhandled exception: inner boom", false, true, true),
+        ("uncaught built-in error inside a fiber", "Fiber.new(|| [][1]).call();\n", "Unhandled IndexError", false, false, false),
+    ];
+    let mut out = Vec::new();
+    for (how, last, end, bomb_dead, inner_dead, outer_dead) in endings {
+        for between in ["", "var zz = ;\n", "throw \"again\";\n", "Fiber.new(|| { throw \"in a new fiber\"; }).call();\n"] {
+            let probe = |n: usize| -> (String, Vec<String>) {
+                // the n-th probing program (n = 1, 2): steps yields 2 then 3; other counts on by two per probe
+                let mut src = String::new();
+                let mut exp: Vec<String> = Vec::new();
+                src.push_str("print(steps.has_finished());\nprint(steps.call());\n");
+                exp.push("false".into());
+                exp.push(format!("{}", n + 1));
+                src.push_str("print(other.call());\n");
+                exp.push(format!("other {}", 2 * n));
+                for (name, dead) in [("bomb", bomb_dead), ("inner", inner_dead), ("outer", outer_dead)] {
+                    src.push_str(&format!("print({}.has_finished());\n", name));
+                    exp.push(format!("{}", dead));
+                    if dead {
+                        src.push_str(&format!("try {{ {}.call(); print(\"it ran\"); }} catch e {{ print(e.context); }}\n", name));
+                        exp.push("Cannot call a finished fiber.".into());
+                    }
+                }
+                src.push_str("print(other.call());\nprint(\"still running\");\n");
+                exp.push(format!("other {}", 2 * n + 1));
+                exp.push("still running".into());
+                (src, exp)
+            };
+            let (p1, e1) = probe(1);
+            let (p2, e2) = probe(2);
+            let mut snippets = vec![format!("{}{}", defs, last), p1];
+            let mut outs: Vec<Vec<String>> = vec![first_out.iter().map(|x| x.to_string()).collect(), e1];
+            let mut ends: Vec<String> = vec![end.to_string(), "ok".into()];
+            if !between.is_empty() {
+                snippets.push(between.to_string());
+                outs.push(vec![]);
+                ends.push(if between.starts_with("var zz") { "[module".into() } else { "Unhandled exception".into() });
+            }
+            snippets.push(p2);
+            outs.push(e2);
+            ends.push("ok".into());
+            out.push(Expect {
+                family: "fibers_across_programs",
+                request: proto::Request { op: "run".into(), snippets, fuel: Some(2_000_000), ..Default::default() },
+                out: outs,
+                end: ends,
+                describe: json!({"first_program_ends": how, "between_the_probes": between}),
+                nontrivial: true,
+            });
+        }
+    }
+    out
+}
+
 pub fn run(ctx: &Ctx) -> Report {
     let mut report = Report::new();
     let active = active_findings(ctx, &mut report);
@@ -846,6 +914,13 @@ pub fn run(ctx: &Ctx) -> Report {
         "an exception that leaves a fiber's outermost frame ends the whole run (the repository's throw_from_fiber script fixes that reading)".into(),
         "for fibers abandoned while suspended the use-after-free side is C01's (suspended fiber as a holder, swept objects quarantined); here their captured variables are followed through every sequence of four uses of up to three counters handed out by abandoned fibers".into(),
     ];
+    {
+        let cases = fibers_across_programs();
+        let n = cases.len();
+        let st = crate::expect::run_expect(ctx, &ctx.runner_checked, cases.into_iter(), &|_e, _r| None, &|_e, _p| None);
+        report.cov("fibers_across_programs", json!(n));
+        report.violations.extend(st.violations);
+    }
     // the fiber operations that fail (and those that do not) leave the calling function's variables intact:
     // C08's family, the rows of Fiber and the Fiber class (every tuple of 0-2 arguments from eight values)
     let n_fv = crate::c08::failing_built_ins_leave_variables_intact(ctx, &mut report, true);
